@@ -34,7 +34,7 @@ int main(int argc, char **argv) {
   if (out) fclose(f);
   if (getenv("ARGVREC_TOUCH")) {
     for (int i = 1; i + 1 < argc; i++)
-      if (!strcmp(argv[i], "-o")) { FILE *t = fopen(argv[i + 1], "a"); if (t) fclose(t); }
+      if (!strcmp(argv[i], "-o") || !strcmp(argv[i], "-MF")) { FILE *t = fopen(argv[i + 1], "a"); if (t) fclose(t); }
   }
   return 0;
 }
